@@ -9,6 +9,8 @@ Each entry of TRACE_CONTRACTS: dict(
     assumes   : assumed contracts this verification leans on (printed in evidence),
 )
 """
+import re
+
 from vf import tracecheck as T
 from vf.tracecheck import Config, ExcV, TupleV, Unknown, count, exc_is, index, properly_nested
 
@@ -234,6 +236,85 @@ def _implementation_clauses():
         ("missing-argument-reported", "an interface field argument the object field lacks is reported", missing_argument_reported),
         ("extra-required-argument-reported", "an additional object field argument is reported exactly when it is of a non-null type", extra_required_argument_reported),
     ]
+
+
+def _error_site(call, args, kwargs):
+    return "error@%d" % call.lineno
+
+
+class RuleTest:
+    """One rule of a `SchemaValidator.validate_*` method, of the form `if <test>: self.add_error(...)`, as two statements about every path on which the
+    method examines an element (the event `scope`, e.g. the loop over the fields; None: every path):
+      evaluated - the rule's test is evaluated for that element: no earlier violation of the same element hides this one (`continue`, `elif`, early return)
+      reported  - an error is reported from the body of that `if` exactly when the test says the rule is broken.
+    The `if` is found in the method's current source by a regular expression over its unparsed test; its error sites are the add_error calls directly inside its
+    body (so the rule is broken when the test is true). A test that cannot be found
+    any more is Unsupported (the method reported degraded), never a violation."""
+
+    def __init__(self, target, scope, test_rx, kind):
+        import ast, inspect, textwrap
+        from vf import engine_p
+        self.scope, self.rx, self.kind = scope, re.compile(test_rx), kind
+        func = engine_p.resolve(target)
+        tree = ast.parse(textwrap.dedent(inspect.getsource(func))).body[0]
+        ast.increment_lineno(tree, func.__code__.co_firstlineno - tree.lineno)
+        self.sites, self.tests = set(), set()
+        for n in ast.walk(tree):
+            if isinstance(n, ast.If) and self.rx.search(ast.unparse(n.test)):
+                self.tests.add(ast.unparse(n.test))
+                for st in n.body:
+                    if isinstance(st, ast.Expr) and isinstance(st.value, ast.Call) and ast.unparse(st.value.func) == "self.add_error":
+                        self.sites.add("error@%d" % st.value.lineno)
+        self.target = target
+
+    def prepare(self, paths):
+        if len(self.tests) != 1 or not self.sites:
+            raise T.Unsupported("rule test /%s/ of %s: %d matching `if` statements, %d error sites (expected one test reporting directly in its body)"
+                                % (self.rx.pattern, self.target, len(self.tests), len(self.sites)))
+        text = next(iter(self.tests))
+        self.text = text
+
+    def fact(self, p):
+        for t, o in p.facts:
+            if t == self.text:
+                return o
+        return None
+
+    def __call__(self, p):
+        if self.scope is not None and self.scope not in p.events:
+            return None
+        if p.outcome != "return":
+            return None
+        o = self.fact(p)
+        if self.kind == "evaluated":
+            return o is not None
+        if o is None:
+            return None
+        return any(site in p.events for site in self.sites) == o
+
+
+def _rule_clauses(target, rules):
+    """rules: [(id stem, text, scope event, regex over the test)] -> two clauses per rule"""
+    out = []
+    for stem, text, scope, rx in rules:
+        out.append(("%s-always-examined" % stem, "%s: the test is made for every element, whatever else is wrong with it" % text, RuleTest(target, scope, rx, "evaluated")))
+        out.append(("%s-reported-iff-broken" % stem, "%s: reported exactly when broken" % text, RuleTest(target, scope, rx, "reported")))
+    return out
+
+
+def _always(event, scope, text_id, text):
+    def pred(p):
+        if p.outcome != "return" or (scope is not None and scope not in p.events):
+            return None
+        return event in p.events
+    return (text_id, text, pred)
+
+
+_VALIDATION = "py_gql.schema.validation:SchemaValidator."
+_VALIDATION_CONFIG = dict(events=[(r"^self\.add_error$", _error_site), (r"^self\.check_valid_name$", "check-name"),
+                                  (r"^self\._validate_resolver_arguments$", "check-resolver")],
+                          nothrow=[r"^self\.add_error$", r"^self\.check_valid_name$", r"^self\._validate_resolver_arguments$", r"^is_(input|output)_type$",
+                                   r"\.add$", r"\.values$", r"^set$"])
 
 
 def _extension_member_clauses(pairs):
@@ -532,6 +613,12 @@ def _strategy_clauses():
         i = max(index(p.events, "serial"), index(p.events, "parallel"))
         return i < 0 or 0 <= index(p.events, "execution+") < i
 
+    def end_after_fields(p):
+        # the execution stage ends in the continuation of the root selection's value (when it is available), never before the runtime was handed that value
+        if "execution-" not in p.events or p.outcome != "return":
+            return None
+        return "cb:then" in p.events and index(p.events, "cb:then") < index(p.events, "execution-")
+
     return [
         ("mutation-runs-serially", "a mutation operation is executed with execute_fields_serially, exactly once", mutation_serial),
         ("query-runs-execute-fields", "a query operation is executed with execute_fields, exactly once", query_parallel),
@@ -540,6 +627,8 @@ def _strategy_clauses():
          start_only_when_accepted),
         ("execution-stage-paired", "on_execution_start / on_execution_end fire at most once, start first, and the end hook fires when the field results are available", paired),
         ("execution-start-before-fields", "on_execution_start fires before the first field is executed", start_before_fields),
+        ("execution-end-when-the-fields-are-done", "on_execution_end fires in the continuation of the root selection's (possibly deferred) value, not when the fields "
+                                                   "have merely been started", end_after_fields),
     ]
 
 
@@ -1120,6 +1209,53 @@ def _coerce_object_clauses():
     ]
 
 
+def _extract_object_clauses():
+    def body(p):
+        if not any(e.startswith("for[type_.fields]") for e in p.events) or "}!" in p.events:
+            return None
+        i = p.events.index([e for e in p.events if e.startswith("for[type_.fields]")][0])
+        return tuple(p.events[i + 1:p.events.index("}", i)]) if "}" in p.events[i:] else None
+
+    def field_rules(p):
+        b = body(p)
+        if b is None:
+            return None
+        absent = [o for t, o in p.facts if re.match(r"^(field\.)?name not in node_fields$", t)]
+        if not absent:
+            return None
+        if absent[-1] is True:
+            if p.assumed("field.has_default_value") is True:
+                return b == ("store:field.python_name=default",)
+            if p.assumed("isinstance(field.type, NonNullType)") is True:
+                return False           # (the path raises: it never reaches the end of the loop body)
+            return b == ()
+        return b == ("value_from_ast", "store:field.python_name=coerced")
+
+    def missing_required(p):
+        absent = [o for t, o in p.facts if re.match(r"^(field\.)?name not in node_fields$", t)]
+        if absent and absent[-1] is True and p.assumed("field.has_default_value") is False and p.assumed("isinstance(field.type, NonNullType)") is True:
+            return p.outcome == "raise" and exc_is(p.payload, __import__("py_gql.exc", fromlist=["InvalidValue"]).InvalidValue)
+        return None
+
+    def unknown_fields(p):
+        if p.assumed("name not in type_.field_map") is True:
+            return p.outcome == "raise" and exc_is(p.payload, __import__("py_gql.exc", fromlist=["InvalidValue"]).InvalidValue) and not any(e.startswith("store:") for e in p.events)
+        return None
+
+    return [
+        ("field-rules", "per declared field of an object literal: absent with default -> the default under the python name; absent optional -> omitted; present -> "
+                        "coerced against the field type and stored under the python name", field_rules),
+        ("missing-required-field-rejected", "a required field without default that the literal does not give is rejected", missing_required),
+        ("unknown-fields-rejected", "a field the type does not define is rejected before anything is stored", unknown_fields),
+    ]
+
+
+def _extract_store_label(m, av=None):
+    text = av.text if isinstance(av, Unknown) else ""
+    kind = "coerced" if text.startswith("value_from_ast") else "default" if "default_value" in text else "?"
+    return "store:%s=%s" % (m.group(1), kind)
+
+
 def _coerce_call_label(call, args, kwargs):
     import ast
     path = kwargs.get("path") if "path" in kwargs else (args[3] if len(args) > 3 else None)
@@ -1231,11 +1367,44 @@ TRACE_CONTRACTS = [
                        nothrow=[r"\.append$", r"^MultiCoercionError$", r"^CoercionError$", r"^_path$", r"\.keys$"],
                        raises=[(r"^coerce_value$", [__import__("py_gql.exc", fromlist=["CoercionError"]).CoercionError, __import__("py_gql.exc", fromlist=["MultiCoercionError"]).MultiCoercionError])]),
          clauses=_coerce_object_clauses(), assumes=["coerce_value raises only coercion errors (its own contract)"]),
+    dict(id="_extract_input_object", target="py_gql.utilities.value_from_ast:_extract_input_object", props=["C07"],
+         config=Config(events=[(r"^value_from_ast$", "value_from_ast")], stmt_events=[(r"^coerced\[(field\.python_name)\]$", _extract_store_label)],
+                       nothrow=[r"^InvalidValue$"],
+                       raises=[(r"^value_from_ast$", [__import__("py_gql.exc", fromlist=["InvalidValue"]).InvalidValue, __import__("py_gql.exc", fromlist=["UnknownVariable"]).UnknownVariable])]),
+         clauses=_extract_object_clauses(), assumes=["value_from_ast raises only InvalidValue / UnknownVariable (bounded: the literal route of the coercion grid)"]),
     dict(id="SchemaValidator.validate_implementation", target="py_gql.schema.validation:SchemaValidator.validate_implementation", props=["C13"],
          config=Config(events=[(r"self\.add_error$", "error"),
                                (r"is_subtype$", lambda call, args, kwargs: "is_subtype(%s)" % ",".join(__import__("ast").unparse(a) for a in call.args))],
                        nothrow=[r"self\.add_error$", r"is_subtype$", r"\.get$"]),
          clauses=_implementation_clauses(), assumes=["Schema.is_subtype is the specification's covariance relation (proved by Engine A in this check)"]),
+    dict(id="SchemaValidator.validate_fields", target=_VALIDATION + "validate_fields", props=["C13"], config=Config(**_VALIDATION_CONFIG),
+         clauses=_rule_clauses(_VALIDATION + "validate_fields", [
+             ("duplicate-field", "a field name used twice on one type", "for[composite_type.fields]{", r"^field\.name in \w+$"),
+             ("field-output-type", "a field whose type is not an output type", "for[composite_type.fields]{", r"^not is_output_type\(field\.type\)$"),
+             ("duplicate-argument", "an argument name used twice on one field", "for[field.arguments]{", r"^arg\.name in \w+$"),
+             ("argument-input-type", "an argument whose type is not an input type", "for[field.arguments]{", r"^not is_input_type\(arg\.type\)$"),
+             ("no-fields", "a type without fields", None, r"^not composite_type\.fields$")]) + [
+             _always("check-name", "for[composite_type.fields]{", "field-names-checked", "the name of every field is checked"),
+             _always("check-name", "for[field.arguments]{", "argument-names-checked", "the name of every argument is checked")],
+         assumes=["is_input_type / is_output_type are the specification's IsInputType / IsOutputType (bounded: labelled violations)"]),
+    dict(id="SchemaValidator.validate_input_fields", target=_VALIDATION + "validate_input_fields", props=["C13"], config=Config(**_VALIDATION_CONFIG),
+         clauses=_rule_clauses(_VALIDATION + "validate_input_fields", [
+             ("duplicate-input-field", "an input field name used twice", "for[input_object.fields]{", r"^field\.name in \w+$"),
+             ("input-field-input-type", "an input field whose type is not an input type", "for[input_object.fields]{", r"^not is_input_type\(field\.type\)$"),
+             ("no-input-fields", "an input object without fields", None, r"^not input_object\.fields$")]) + [
+             _always("check-name", "for[input_object.fields]{", "input-field-names-checked", "the name of every input field is checked")],
+         assumes=[]),
+    dict(id="SchemaValidator.validate_directives", target=_VALIDATION + "validate_directives", props=["C13"], config=Config(**_VALIDATION_CONFIG),
+         clauses=_rule_clauses(_VALIDATION + "validate_directives", [
+             ("duplicate-directive-argument", "a directive argument name used twice", "for[directive.arguments]{", r"^arg\.name in \w+$"),
+             ("directive-argument-input-type", "a directive argument whose type is not an input type", "for[directive.arguments]{", r"^not is_input_type\(arg\.type\)$")]) + [
+             _always("check-name", "for[directive.arguments]{", "directive-argument-names-checked", "the name of every directive argument is checked")],
+         assumes=[]),
+    dict(id="SchemaValidator.validate_enum_values", target=_VALIDATION + "validate_enum_values", props=["C13"], config=Config(**_VALIDATION_CONFIG),
+         clauses=_rule_clauses(_VALIDATION + "validate_enum_values", [
+             ("no-enum-values", "an enum without values", None, r"^not enum_type\.values$")]) + [
+             _always("check-name", "for[enum_type.values]{", "enum-value-names-checked", "the name of every enum value is checked")],
+         assumes=[]),
     dict(id="BlockingRuntime.map_value", target="py_gql.execution.runtime.blocking:BlockingRuntime.map_value", props=["C16", "C08"],
          config=Config(events=[(r"^then$", "then"), (r"^else_\[1\]$", "else")]),
          clauses=[("then-exactly-once-first", "`then` is invoked exactly once, first", lambda p: count(p.events, "then") == 1 and p.events[0] == "then"),
